@@ -21,3 +21,67 @@ def replay_case_file(prop, path):
             print("replay: the case now agrees with the specification")
         return 1 if rep.violations else 0
     raise vlib.ToolError("cannot replay kind %s here" % body.get("kind"))
+
+
+def mc_replay(rep, binary, prop, module, keyf=None, run="mc", nchunks=None, env=None, timeout=600):
+    """(a) spec -> impl: run the bounded exhaustive configuration `module` (TLC checks the property's
+    theorems on the specification and emits one case per state), replay every case on the real
+    code and judge it under its pin mask."""
+    d, res, cases = vlib.tlc_chunked(prop, run, module, nchunks=nchunks, env=env, timeout=timeout)
+    rep.add_tlc(module, res)
+    outs = vlib.replay_cases(binary, d, cases, name=run)
+    vlib.judge_cases(rep, cases, outs, keyf=keyf)
+    rep.cov["traces_validated_against_impl"] += len(cases)
+    step = max(1, len(cases) // 3)
+    for c in cases[::step][:3]:
+        rep.sample({"fn": c["fn"], "a": c["a"], "input": c["input"], "expect": c["expect"], "pin": c["pin"]})
+    return d, cases, outs
+
+
+def trace_parse(rep, prop, run, events, nchunks=None, timeout=600):
+    """(b) impl -> spec: TLC evaluates the specification on every recorded event; returns
+    {id: spec result}.  The comparison is made by `judge_events`."""
+    d = vlib.workdir(prop, run)
+    slim = [{"id": e["id"], "fn": e["fn"], "a": e["a"], "input": e["input"]} for e in events]
+    path = vlib.os.path.join(d, "events.ndjson")
+    vlib.write_ndjson(path, slim)
+    d2, res, lines = vlib.tlc_chunked(prop, run + "_tlc", "Trace_Parse", nchunks=nchunks,
+                                      env={"VERIF_IN": path}, timeout=timeout, out_name="spec")
+    rep.add_tlc("Trace_Parse(%s)" % run, res)
+    return {l["id"]: l["spec"] for l in lines}
+
+
+def judge_events(rep, events, spec, pinf=None, keyf=None):
+    """Every recorded event must satisfy the observation invariants (Robust); where `pinf`
+    pins something for an event the specification's answer is compared under that pin,
+    otherwise a disagreement with the precise decoder is advisory."""
+    agree = 0
+    for e in events:
+        rep.count()
+        why = vlib.robust_check(e)
+        s = spec.get(e["id"])
+        adv = False
+        if why is None and s is not None:
+            pin = pinf(e, s) if pinf else "none"
+            why, adv = vlib.compare(pin, s, e["res"])
+        key = keyf(e) if keyf else "%s:%s" % (e["fn"], vlib.hashlib.sha1(vlib.json.dumps([e["a"], e["input"]]).encode()).hexdigest()[:10])
+        if why:
+            rep.violation(key, {"id": e["id"], "fn": e["fn"], "a": e["a"], "input": e["input"], "expect": s, "pin": "none"},
+                          s, e["res"], why)
+        elif adv:
+            rep.cov["advisory_mismatches"] += 1
+            if len(rep.advisory) < 8:
+                rep.advisory.append({"fn": e["fn"], "a": e["a"], "input": e["input"], "spec": s, "observed": e["res"]})
+        else:
+            agree += 1
+        r = e["res"]
+        rep.nontrivial((e["fn"], r["k"], r["e"] if r["k"] in ("err", "fail") else "", min(e["len"], 40) // 4))
+    rep.cov["traces_validated_against_impl"] += agree
+    return agree
+
+
+def default_key(c):
+    n = c.get("note", {})
+    tag = ":".join("%s=%s" % (k, n[k]) for k in sorted(n)) if isinstance(n, dict) else str(n)
+    h = vlib.hashlib.sha1(vlib.json.dumps([c["a"], c["input"]], sort_keys=True).encode()).hexdigest()[:10]
+    return "%s:%s:%s" % (c["fn"], tag, h)
